@@ -177,6 +177,42 @@ theorem euler_total_telescope (m : Model α) (b : Backend) (hp : prepare m = .ok
   have h := euler_telescope (linOn_sumL n) (fun y t => compRates b (rates y t)) hlen y0 hy0 times k hk
   simp only [Summer.C02.total_rate m b hp] at h
   exact h
+
+/-- One Dormand–Prince step of the adaptive solver, accepted or rejected, for EVERY tableau and every
+`dt`: the proposed state moves `L` by `dt · Σ_i cSol_i · L k_i` over the seven stage derivatives, and the
+error estimate carries `dt · Σ_i cError_i · L k_i` — with no hypothesis that the field annihilates `L`. -/
+theorem dopriStep_balance {n : Nat} {L : List α → α} (hL : LinOn n L) (tb : Tableau α)
+    (f : List α → α → List α) (hf : ∀ y t, y.length = n → (f y t).length = n)
+    (y0 f0 : List α) (hy0 : y0.length = n) (hf0 : f0.length = n) (t0 dt : α) :
+    let r := rkStep tb f y0 f0 t0 dt
+    r.1.length = n ∧
+    L r.1 = L y0 + dt * sumL ((tb.cSol.zip r.2.2.2).map (fun ck => ck.1 * L ck.2)) ∧
+    L r.2.2.1 = dt * sumL ((tb.cError.zip r.2.2.2).map (fun ck => ck.1 * L ck.2)) := by
+  have hf' : FieldOK n (fun _ : List α => (0 : α)) f := fun y t hy => ⟨hf y t hy, rfl⟩
+  obtain ⟨hk, -⟩ := rkStages_inv (L := fun _ : List α => (0 : α)) tb hf' y0 f0 hy0 ⟨hf0, rfl⟩ t0 dt
+  have hkl : ∀ v ∈ rkStages tb f y0 f0 t0 dt, v.length = n := fun v hv => (hk v hv).1
+  simp only [rkStep_eq]
+  refine ⟨by simp [hy0, length_lincomb n _ _ hkl], ?_, ?_⟩
+  · rw [hL.add _ _ (by simp [hy0, length_lincomb n _ _ hkl]) hy0,
+      hL.smul _ _ (by simp [hy0, length_lincomb n _ _ hkl]), hy0, L_lincomb hL _ _ hkl]
+    ring
+  · rw [hL.smul _ _ (by simp [hy0, length_lincomb n _ _ hkl]), hy0, L_lincomb hL _ _ hkl]
+
+/-- … on a prepared model: the total of the proposed state moves by `dt ·` the `cSol`-weighted
+(entry − exit) totals of the stage derivatives, given the stages are the model's compartment rates. -/
+theorem dopri_total_balance (m : Model α) (b : Backend) (hp : prepare m = .ok b) (tb : Tableau α)
+    (f : List α → α → List α) (n : Nat) (hf : ∀ y t, y.length = n → (f y t).length = n)
+    (y0 f0 : List α) (hy0 : y0.length = n) (hf0 : f0.length = n) (t0 dt : α)
+    (rs : List (List α))
+    (hstages : (rkStep tb f y0 f0 t0 dt).2.2.2 = rs.map (fun r => compRates b r)) :
+    sumL (rkStep tb f y0 f0 t0 dt).1 =
+      sumL y0 + dt * sumL ((tb.cSol.zip rs).map (fun cr => cr.1 * (Spec.entryTotal m cr.2 - Spec.exitTotal m cr.2))) := by
+  have h := (dopriStep_balance (linOn_sumL n) tb f hf y0 f0 hy0 hf0 t0 dt).2.1
+  rw [h, hstages, List.zip_map_right, List.map_map]
+  congr 3
+  apply List.map_congr_left
+  intro cr _
+  simp [Summer.C02.total_rate m b hp]
 end Summer.Props.C02Open
 
 #print axioms Summer.Props.C02Open.eulerStep_balance
@@ -188,3 +224,5 @@ end Summer.Props.C02Open
 #print axioms Summer.Props.C02Open.rk4_total_balance
 #print axioms Summer.Props.C02Open.euler_telescope
 #print axioms Summer.Props.C02Open.euler_total_telescope
+#print axioms Summer.Props.C02Open.dopriStep_balance
+#print axioms Summer.Props.C02Open.dopri_total_balance
